@@ -317,7 +317,9 @@ def finish(ctx, module, exc=None):
     lines = []
     for fid, (e, cnt) in sorted(hit.items()):
         lines.append("KNOWN-FINDING: property=%s %s [%s; %d manifestations]" % (prop, e["what"], fid, cnt))
-    replay_dir = os.path.join(VERIF, "replays")
+    mutant = bool(os.environ.get("VERIF_REPO"))      # mutation protocol: never touch the committed evidence
+    out_base = "/dev/shm/verif-mutant-out" if mutant else VERIF
+    replay_dir = os.path.join(out_base, "replays")
     nfile = 0
     for key, cnt in unknown:
         idx, case, desc, msg, fname = ctx.vsamples[key]
@@ -363,8 +365,8 @@ def finish(ctx, module, exc=None):
     ev = {"property_id": prop, "tier": ctx.tier, "seed": int(ctx.seed), "level": level,
           "coverage": cov, "assumptions": list(getattr(module, "ASSUMPTIONS", [])),
           "wall_s": round(wall, 2), "violations": int(sum(c for _, c in unknown))}
-    os.makedirs(os.path.join(VERIF, "evidence"), exist_ok=True)
-    with open(os.path.join(VERIF, "evidence", "%s.json" % prop), "w") as f:
+    os.makedirs(os.path.join(out_base, "evidence"), exist_ok=True)
+    with open(os.path.join(out_base, "evidence", "%s.json" % prop), "w") as f:
         json.dump(ev, f, indent=1, sort_keys=True)
     print("%s tier=%s executions=%d distinct_nontrivial=%d distinct_outcomes=%d replayed=%d wall=%.1fs%s"
           % (prop, ctx.tier, ctx.evaluations, len(ctx.nt), len(ctx.outcomes), ctx.replayed, wall,
